@@ -479,8 +479,9 @@ func (v *FnVC) ptrTerm(l *Loc) string {
 	if len(args) == 0 {
 		t = name
 	}
-	// interior pointers are non-nil
-	v.asserts = append(v.asserts, fmt.Sprintf("(> %s 0)", t))
+	// interior pointers are non-nil; they live in the negative range so that they never coincide with an allocated
+	// object (frames and freshness talk about refs > 0)
+	v.asserts = append(v.asserts, fmt.Sprintf("(< %s 0)", t))
 	return t
 }
 
@@ -1316,7 +1317,11 @@ func (v *FnVC) loopHeader(b *ssa.BasicBlock, li *LoopInfo, entryPreds []*ssa.Bas
 				excl := ""
 				seen := map[string]bool{}
 				for _, r := range li.OldRefs[k] {
-					rt := v.val(r).S
+					rv := v.val(r)
+					rt := rv.S
+					if rv.Sort == "Iface" {
+						rt = fmt.Sprintf("(ival %s)", rv.S)
+					}
 					if !seen[rt] {
 						seen[rt] = true
 						excl += fmt.Sprintf(" (not (= a %s))", rt)
